@@ -41,13 +41,14 @@ def einsum(ev, spec, a, b, **kw):
 
 
 class PdfProbe:
-    def __init__(self, provided):
+    def __init__(self, provided, answers="bool"):
         self.provided = set(provided)
         self.queried = []
+        self.answers = answers  # how hasFlavor answers: Python bools (lhapdf's binding) or the integers 0 / 1 (a C-style binding, list.count, ...)
 
     def record(self):
         def has(pid):
-            return pid in self.provided
+            return (pid in self.provided) if self.answers == "bool" else int(pid in self.provided)
 
         def xfx(pid, z, mu2):
             self.queried.append(pid)
@@ -99,15 +100,15 @@ def check_formula(rep, proj):
     grid = [A.sym(f"xg{j}", True) for j in range(n)]
     keys = [(0, 0, 0, 0), (1, 0, 0, 0), (1, 0, 0, 1), (2, 0, 1, 0), (2, 1, 1, 2), (3, 0, 2, 1)]
     xiR, xiF = A.sym("xiR", True), A.sym("xiF", True)
-    for cls_name in ("ESFResult", "EXSResult"):
+    for cls_name, answers in (("ESFResult", "bool"), ("EXSResult", "bool"), ("ESFResult", "int")):
         cls = proj.cls(RES, cls_name)
         f = cls.find_method("apply_pdf")
         ev = S.Evaluator(proj, lenient_ext=True, ext_calls={"numpy.einsum": einsum})
         res = make_result(ev, proj, cls_name, keys, pids, n)
-        probe = PdfProbe(provided)
+        probe = PdfProbe(provided, answers)
         alpha_s = S._NativeFn(lambda mu: A.opaque("ALPHAS", (S.num_norm(mu),)))
         alpha_qed = S._NativeFn(lambda mu: A.opaque("ALPHAQED", (S.num_norm(mu),)))
-        construct = f"{cls.fq}.apply_pdf"
+        construct = f"{cls.fq}.apply_pdf" + ("" if answers == "bool" else "[hasFlavor answers 0 / 1]")
         try:
             out = ev.call(ev.getattr(res, "apply_pdf", None), [probe.record(), pids, grid, alpha_s, alpha_qed, xiR, xiF], {})
         except A.Undecided as e:
@@ -142,7 +143,7 @@ def check_formula(rep, proj):
         ev.call(ev.getattr(res, "apply_pdf", None), [PdfProbe(provided).record(), pids, grid, None, None, xiR, xiF], {})
         rep.bad("C17.formula", cls.site, f"{cls.fq}.apply_pdf[Q2 unset]", "a result without Q2 is contracted silently")
     except S.Raised as r:
-        rep.check(r.etype == "ValueError", "C17.formula", cls.site, f"{cls.fq}.apply_pdf[Q2 unset]", "rejected with ValueError", f"ends in {r}")
+        rep.check(S.raised_is(r, "ValueError"), "C17.formula", cls.site, f"{cls.fq}.apply_pdf[Q2 unset]", "rejected with ValueError", f"ends in {r}")
     except A.Undecided as e:
         rep.undecided("C17.formula", cls.site, f"{cls.fq}.apply_pdf[Q2 unset]", str(e))
 
@@ -261,7 +262,7 @@ def check_alphas(rep, proj):
             ret = ev.call(ev.getattr(out, "apply_pdf_theory", None), [S.record("pdf"), theory], {})
         except S.Raised as r:
             if fns == "VFNS-X":
-                rep.check(r.etype == "ValueError" and isinstance(r.node, ast.Raise), "C17.alphas", f.site, construct, "unknown scheme raises ValueError", f"ends in {r}")
+                rep.check(S.raised_is(r, "ValueError") and isinstance(r.node, ast.Raise), "C17.alphas", f.site, construct, "unknown scheme raises ValueError", f"ends in {r}")
             else:
                 rep.bad("C17.alphas", f.site, construct, f"documented scheme raises {r}")
             continue
